@@ -101,5 +101,10 @@ func (b *Stack[T]) WaitSizeIsAbove(threshold int) {
 }
 
 func (b *Stack[T]) SignalShutdown() {
+	// pass through the mutex first: a PopOrWait that has evaluated its wait condition but is not yet waiting holds it,
+	// and would otherwise miss this wake-up and wait forever
+	b.mutex.Lock()
+	b.mutex.Unlock() //nolint:staticcheck // intentionally empty critical section (ordering only)
+
 	b.elementAdded.Broadcast()
 }
